@@ -126,6 +126,29 @@ def prereg_family(tag):
     return scs
 
 
+def dying_link_family(tag):
+    """an acknowledgement is written into a link that is already broken for writing but not yet seen as closed: the transport reports a
+    plain I/O error (or its "closed" sentinel). Whatever the error, the content of that acknowledgement must reach the broker later
+    (after the resume, at the latest before the close request)."""
+    scs = []
+    ch = lambda k, up, idn: {"a": "sendChunk", "obj": "D1", "up": up, "upF": "info", "upAl": 0, "seq": k, "groups": [{"f": "id", "id": idn, "al": 0, "pts": [[k, 5]]}]}
+    rd = {"a": "read", "g": "R1", "obj": "D1", "ctxMs": 1500, "wait": True}
+    for do in ("failWriteIO", "failWrite"):
+        for n in (1, 2):
+            steps = [{"a": "connect", "must": True},
+                     {"a": "openDown", "obj": "D1", "qos": "reliable", "srcs": ["n1"], "ids": ["A"], "ackFlushMs": 20, "must": True},
+                     {"a": "rule", "rule": {"on": "DownstreamChunkAck", "inc": 1, "do": do}}]
+            for j in range(n):
+                steps += [ch(1 + j, "XY"[j], "BC"[j]), rd]
+            steps += [{"a": "await", "ev": "Fault", "match": {"do": do}, "ms": 1000, "must": True}, {"a": "sleep", "ms": 30}, {"a": "cut"},
+                      {"a": "await", "ev": "Reconnected", "ms": 4000, "must": True}, {"a": "sleep", "ms": 150},
+                      ch(7, "X", "A"), rd, {"a": "sleep", "ms": 45},
+                      {"a": "closeDown", "g": "C", "obj": "D1", "ctxMs": 3000, "wait": True}, {"a": "quiesce"},
+                      {"a": "closeConn", "g": "main2", "wait": True, "ctxMs": 2000}, {"a": "quiesce", "ms": 50}]
+            scs.append({"id": "%s/dyingLink/%s/%d" % (tag, do, n), "kind": "iscp", "conn": {"pingMs": [100, 100], "dialDelayMs": 40}, "steps": steps})
+    return scs
+
+
 def backpressure_family(tag):
     """the broker stops reading for longer than the ack flush interval (an ack write is blocked in the transport) while chunks with new
     upstreams / data ids are consumed; then it reads again. Everything consumed must still be acknowledged / announced exactly once."""
@@ -183,7 +206,7 @@ def run(pid="C04", mon="MonC04"):
         scs += forms_family(pid, 3, "up", qos="unreliable", conn={"unreliable": True}, name="forms-up3-unreliable-path")
         scs += forms_family(pid, 3, "up", qos="partial", name="forms-up3-partial")
     if pid == "C04":
-        scs += backpressure_family(pid)
+        scs += backpressure_family(pid) + dying_link_family(pid)
         scs += family(ctx, pid, 25 if quick else 300, quick, bogus=False, faults=1, maxc=5, name="resume",
                       conn={"pingMs": [100, 100], "dialDelayMs": 40}, ack_flush_ms=250)
     trace = ctx.run_scenarios(scs, pid.lower(), par=8)
